@@ -159,16 +159,22 @@ def run_case(work, idx, c):
     cli.make_tree(src, {"src/lib.rs": SRC})
     disc = c["disc"]
     cwd = {"flag": os.path.join(root, "elsewhere"), "cwd": root, "parent": os.path.join(root, "a"), "grandparent": os.path.join(root, "a", "b"),
-           "flag_over_cwd": os.path.join(root, "elsewhere"), "flag_over_parent": os.path.join(root, "elsewhere", "sub")}[disc]
+           "flag_over_cwd": os.path.join(root, "elsewhere"), "flag_over_parent": os.path.join(root, "elsewhere", "sub"),
+           "cwd_over_parent": os.path.join(root, "a"), "parent_over_grandparent": os.path.join(root, "a", "b"), "cwd_over_all": os.path.join(root, "a", "b")}[disc]
     os.makedirs(cwd, exist_ok=True)
     by_flag = disc.startswith("flag")
-    cfg_path = os.path.join(root, "conf", "custom.toml") if by_flag else os.path.join(root, "typeshare.toml")
+    # where the configuration file (the one that carries c["file"]) lies; MC_C20!Shape
+    real_dir = {"cwd_over_parent": os.path.join(root, "a"), "parent_over_grandparent": os.path.join(root, "a"), "cwd_over_all": os.path.join(root, "a", "b")}.get(disc, root)
+    cfg_path = os.path.join(root, "conf", "custom.toml") if by_flag else os.path.join(real_dir, "typeshare.toml")
     os.makedirs(os.path.dirname(cfg_path), exist_ok=True)
     profile = c.get("tables", "basic")
     open(cfg_path, "w").write(toml_text(c["file"], profile=profile))
     if c.get("decoy"):
-        # a different typeshare.toml that discovery alone would find; every setting has another value there
-        open(os.path.join(root, "elsewhere", "typeshare.toml"), "w").write(toml_text({s: "decoy" + s.replace("_", "") for s in SETTINGS}, with_tables=False))
+        # different typeshare.toml files that are NOT the configuration (discovery alone would find them / they lie further up);
+        # every setting has another value there
+        decoy_dirs = {"cwd_over_parent": [root], "parent_over_grandparent": [root], "cwd_over_all": [os.path.join(root, "a"), root]}.get(disc, [os.path.join(root, "elsewhere")])
+        for k, dd in enumerate(decoy_dirs):
+            open(os.path.join(dd, "typeshare.toml"), "w").write(toml_text({s: f"decoy{k}" + s.replace("_", "") for s in SETTINGS}, with_tables=False))
     opts = []
     for s in SETTINGS:
         if c["cli"][s] == "<given-empty>":
@@ -221,7 +227,10 @@ def run_case(work, idx, c):
         out = os.path.join(root, "reload." + common.EXT[lang])
         r = cli.run_cli(["-l", lang, "-o", out, src], cwd=gdir, timeout=20)     # discovered in cwd
         if r["exit"] != "ok":
-            raise ToolError(f"typeshare failed reloading its own generated config ({lang}): {r['stderr'][-300:]}")
+            # the generated file (in the working directory) holds a package for this language: a reload that fails did not use it
+            events.append(({"ev": "reload", "cli": full(c["cli"]), "written": written, "lang": lang, "obs": full({s2: "<run failed>" for s2 in EXPOSES[lang]})},
+                           {"kind": "reload", "lang": lang, "disc": disc, "cli": c["cli"], "file": {}}))
+            continue
         obs, _ = observe(lang, open(out).read())
         events.append(({"ev": "reload", "cli": full(c["cli"]), "written": written, "lang": lang, "obs": full(obs)},
                        {"kind": "reload", "lang": lang, "disc": disc, "cli": c["cli"], "file": {}}))
@@ -256,6 +265,8 @@ def run(chk):
         for d in ("cwd", "parent", "grandparent"):
             sl += [dict(c, disc=d) for c in flag[7::16]]
         sl += [c for c in cases if c["disc"] == "flag_over_cwd"][5::16]
+        for dname in ("cwd_over_parent", "cwd_over_all"):
+            sl += [c for c in cases if c["disc"] == dname and c.get("tables", "basic") == "basic"][3::24]
         sl += [c for c in cases if "<given-empty>" in c["cli"].values()][3::8]
         sl += [c for c in cases if c.get("tables", "basic") != "basic"][::3]
         cases = sl
